@@ -5,6 +5,21 @@ import json, subprocess, os
 V = os.path.dirname(os.path.dirname(os.path.abspath(__file__)))
 
 claimed = {
+ "C10": dict(tech="SCCP on symbolic collections (positional algebra), value provenance of appended items, dropped-error dataflow, loop-verdict placement",
+    text="first/last/tail/skip/take and the indexer are evaluated from source on symbolic collections of 0..4 items for boundary n and compared with the positional specification; exists/empty/count, the where/all criterion handling, the provenance of filtered items and the absence of null items are decided for all paths.",
+    note="Not decided: equality-based membership of distinct/exclude/intersect on run-time values. Known finding (test-pinned): exclude() appends the argument's extra items.", ref="§3-C10"),
+ "C11": dict(tech="grammar (.g4) reader + AST of the generated parser (precedence/associativity numbers, token-set masks, literal table), SCCP of the visitors with the operator token pinned, dominance in compile.Tree",
+    text="Decides that parser and visitor have the shape that makes the property hold: N1 precedence order and operator sets, position-derived Precpred levels, K+1 right operands (left associativity), operand order and root-flag reset in every binary visitor, operator→node/operation map, EOF-terminated start rule with collecting listeners on lexer and parser, String() = stored source.",
+    note="Not decided: behavioural equality of two renderings; the serialized ATN (prediction tables, lexer channel actions) is opaque without the ANTLR tool and trusted to match the readable parser code.", ref="§3-C11"),
+ "C12": dict(tech="SCCP of parent()/Is()/NewTypeSpecifier with registry lookups modelled from the dummy lists, compared with a frozen R4 hierarchy; schema-derived nested component names",
+    text="The parent of every primitive, datatype, resource, base type and nested backbone component name is computed from source and compared with R4; `is` is evaluated on 28 specifier pairs through the recursive walk; name resolution order and rejection on 31 names; choice look-through constants; `as` returns the item iff `is`.",
+    note="Not decided: the run-time type of each element (TypeOf reads the descriptor name). Trusted: the frozen R4 excerpt.", ref="§3-C12"),
+ "C17": dict(tech="loop-exit and value-flow analysis of ApplyOptions, dominance by the err==nil edge in its callers, SCCP of the option callbacks / validateType / variable lookup / reflective wrapper with pinned sub-results",
+    text="All options applied and their errors joined and returned; nothing evaluated or visited after a failing option; duplicate/predefined/unsupported variables fail with the documented sentinels and insert nothing; variable lookup splices collections; the custom-function wrapper validates arity, singleton-ness and types before the reflective call.",
+    note="Not decided: behaviour behind reflect.Value.Call (what the user function observes and returns).", ref="§3-C17"),
+ "C18": dict(tech="nothing-after path queries over the CFG of every mutating patch function (mutator table, detached-list and closure-target resolution), SCCP for Move/Delete/Add guards, receiver provenance, comparison inventory",
+    text="Every error return of every patch function precedes its mutation points; Move always reports not-implemented; deleting an absent element is a no-op success; the value is never a mutator receiver; Add cannot reach a mutation with a populated scalar; the target is found by identity; nil arguments are rejected first; protoreflect index/kind/validity obligations hold.",
+    note="Not decided: the frame condition of successful operations on run-time proto state. Assumes Mutable() on a repeated field is equality preserving.", ref="§3-C18"),
  "C02": dict(tech="schema-relative table checks (generated R4 Go types vs the name mapping), SCCP of the admission test, taint analysis of identifier text, type-switch agreement",
     text="Decides structural necessary conditions of navigation exhaustively over the R4 schema as present in the generated Go types: every one of the ~5000 message-valued element fields is admitted by isEvaluable and resolves to its proto field under the modelled lookups (ByName(ToSnake) / _value retry / ByJSONName); the choice discriminator holds for all 186 choice wrappers and agrees between expr and patch; proto-only pseudo fields are refused on the four time primitives only; identifier text is unquoted before use; IsPrimitive/From cover every schema primitive.",
     note="Not decided: equality of results with the JSON tree, document order, reference string synthesis, date/time rendering. The strcase functions are modelled by the library itself (pure functions).", ref="§3-C02"),
